@@ -222,6 +222,14 @@ BINOPS = {
     "spadot": lambda a, b: spa.dot(a, b),
     "rshift": lambda a, b: a >> b,
 }
+UNOPS = {
+    "neg": lambda a: -a,
+    "inv": lambda a: ~a,
+    "linv": lambda a: a.linv(),
+    "rinv": lambda a: a.rinv(),
+    "normalized": lambda a: a.normalized(),
+    "unitary": lambda a: a.unitary(),
+}
 ARITH = ("add", "sub", "mul")
 METHODS_OF = {  # which left kinds have the method at all
     "dot": "PSYM", "compare": "P", "mse": "P", "distance": "P",
@@ -243,6 +251,8 @@ def run_program(U, objs, ops, variants=None):
                 try:
                     if f[0] in BINOPS:
                         r = BINOPS[f[0]](world[int(f[1])], world[int(f[2])])
+                    elif f[0] == "un":
+                        r = UNOPS[f[1]](world[int(f[2])])
                     elif f[0] == "reinterp":
                         tgt = None if f[2] == "-" else U.vocabs[int(f[2][1:])]
                         r = spa.reinterpret(world[int(f[1])], tgt)
@@ -379,6 +389,8 @@ class Checker:
         if len(mo) != len(out) or len(mw) != len(after):
             return False
         for (st, tok), m in zip(out, mo):
+            if m == "err:badref":
+                continue                                   # an operand slot left empty by a failed earlier step
             if st == "err":
                 if m == "err:connect":
                     if tok not in ("validation", "attr", "spatype", "value"):
@@ -459,7 +471,7 @@ class Checker:
                         ctx.fail(dict(case, **{"class": "result algebra"}), tok,
                                  "a result with a vocabulary uses the vocabulary's algebra", where="result-algebra")
             # completions: a result tainted by vocabulary v must not connect into a sink of another vocabulary / size
-            if completions:
+            if completions and tok not in ("Y:S", "F", "N", "G"):     # a scalar result carries no vocabulary
                 vs = {x for x in (la[1], lb[1]) if x is not None}
                 ds = {x for x in (la[2], lb[2]) if x is not None}
                 for sink, okc in completions.items():
@@ -519,6 +531,20 @@ def kinds_for(U, tier):
     return ks
 
 
+def kinds_small(U):
+    """kinds of the dimension-1 corner universe: pointers, symbols, modules and nodes of every vocabulary"""
+    ks = []
+    for i, (d, a) in enumerate(U.spec):
+        ks.append((f"P:{i}:{a}:{d}", [""]))
+        ks.append((f"S:V{i}", [""]))
+        ks.append((f"M:V{i}", [""]))
+        ks.append((f"Y:V{i}", [""]))
+    # (no vocabulary-less length-1 pointer here: `p + scalar_node >> State(1-d)` is accepted by size, but the model's
+    #  node descriptor of an untyped sum carries no source width; that pointer kind meets the 4-d universe above)
+    ks += [("S:A", [""]), ("M:S", [""]), ("Y:S", [""]), ("N", [""]), ("R:1", [""])]
+    return ks
+
+
 def run(ctx):
     spec = [(4, 0), (4, 0), (9, 0), (4, 1)]
     if ctx.tier != "quick":
@@ -569,6 +595,44 @@ def run(ctx):
     ck0 = Checker(ctx, U0)
     kinds0 = [(k, [v for v in vs if v != "named"]) for k, vs in kinds if k[0] != "S"]
     matrix(U0, ck0, kinds0, {-1: "emptyvocab"})
+    # dimension-1 corner: two different 1-dimensional vocabularies and a 4-dimensional one (a module output of
+    # size 1 must still belong to its vocabulary, not be taken for a scalar)
+    U1 = Universe([(1, 0), (1, 0), (4, 0)])
+    ck1 = Checker(ctx, U1)
+    matrix(U1, ck1, kinds_small(U1), {-2: "dim1"})
+
+    # ---- 1b. unary operator / method, then a binary operation -------------------------------------------
+    # a unary result belongs to what its operand belongs to: the second step is accepted/rejected exactly like the
+    # same operation on the operand itself (fresh world), and a typed symbol stays typed
+    n_un = 0
+    for sbj in ["P:0:0:4", "P:3:1:4", "P:-:0:4", "P:-:1:4", "S:V0", "S:V3", "S:A", "Y:V0", "Y:V3", "Y:D4"]:
+        for u in UNOPS:
+            for prt in ["P:0:0:4", "P:1:0:4", "P:2:0:9", "P:3:1:4", "S:V1", "M:V0", "M:V1", "M:V2", "M:V3"]:
+                if u == "linv" and sbj[0] == "S" and (sbj == "S:V3" or prt in ("P:3:1:4", "M:V3")):
+                    continue      # a symbol's linv() is evaluated later in a VTB vocabulary: NotImplementedError there
+                for op2 in (["rshift"] if prt[0] == "M" else ["add", "mul", "dot"]):
+                    for side in ((0,) if op2 == "rshift" else (0, 1)):
+                        second = f"{op2},2,1" if side == 0 else f"{op2},1,2"
+
+                        def orc(case, out, before, after, sbj=sbj, prt=prt, op2=op2, side=side, u=u):
+                            if out[0][0] != "ok":
+                                return            # the unary step itself was refused (VTB linv, node.normalized(), ...)
+                            if out[0][1] != before[0]:
+                                ctx.fail(dict(case, **{"class": "unary result changed membership"}), out[0][1],
+                                         f"same vocabulary / type / algebra as the operand: {before[0]}",
+                                         where="unary-membership")
+                            key = (op2, sbj, prt, side)
+                            if key not in ck.fresh_cache:
+                                f, _, _, _ = run_program(U, [sbj, prt], [f"{op2},0,1" if side == 0 else f"{op2},1,0"])
+                                ck.fresh_cache[key] = f[0]
+                            fresh = ck.fresh_cache[key]
+                            if (out[1][0] == "ok") != (fresh[0] == "ok"):
+                                ctx.fail(dict(case, **{"class": "acceptance changed by a unary operation"}),
+                                         f"{u} then {op2} with {prt}: {out[1]}", f"as for the operand itself: {fresh}",
+                                         where="unary-then-binop")
+                        ck.program([sbj, prt], [f"un,{u},0", second], branch=f"unary-{sbj[0]}", oracle=orc)
+                        n_un += 1
+    ctx.extra["unary_programs"] = n_un
     ctx.extra["kind_pairs"] = pair_counts
 
     # ---- 2. explicit casts --------------------------------------------------
